@@ -286,3 +286,89 @@ fn c12_nopanic_unroll_fwd() {
 fn c12_nopanic_drop_fwd() {
     nopanic_case("drop", true);
 }
+
+// ---- underflow through the dispatch layer: from an EMPTY stack every consuming action, in the
+// direction in which it consumes, sets all operands to NaN and reports zero (no panic).
+fn underflow_case(action: &'static str, fwd: bool) {
+    let mut ops = [any_c4(), any_c4()];
+    let mut stack: Vec<Vec<f64>> = Vec::with_capacity(4);
+    let a = idx();
+    let p = match action {
+        "push" | "pop" | "flip" => stack_params(action, vec![a as f64]),
+        _ => stack_params(action, vec![2.0, 1.0]),
+    };
+    let r = if fwd { stack_fwd(&mut stack, &mut ops, &p) } else { stack_inv(&mut stack, &mut ops, &p) };
+    assert!(r == 0);
+    for i in 0..N {
+        for k in 0..4 {
+            assert!(ops[i].0[k].is_nan());
+        }
+    }
+    kani::cover!(true);
+    std::mem::forget(p);
+    std::mem::forget(stack);
+}
+
+// @harness c12_underflow_pop_fwd prop=C12 tier=quick cap=900 stubs="M-BTREE, core::result::unwrap_failed (panic kept, message dropped)" bound="empty stack, action pop forward: all operands NaN, count 0, no panic"
+#[kani::proof]
+#[kani::stub(core::result::unwrap_failed, stub_unwrap_failed)]
+#[kani::unwind(8)]
+fn c12_underflow_pop_fwd() {
+    underflow_case("pop", true);
+}
+
+// @harness c12_underflow_push_inv prop=C12 tier=quick cap=900 stubs="M-BTREE, core::result::unwrap_failed (panic kept, message dropped)" bound="empty stack, action push inverse: all operands NaN, count 0, no panic"
+#[kani::proof]
+#[kani::stub(core::result::unwrap_failed, stub_unwrap_failed)]
+#[kani::unwind(8)]
+fn c12_underflow_push_inv() {
+    underflow_case("push", false);
+}
+
+// @harness c12_underflow_flip_fwd prop=C12 tier=quick cap=900 stubs="M-BTREE, core::result::unwrap_failed (panic kept, message dropped)" bound="empty stack, action flip forward: all operands NaN, count 0, no panic"
+#[kani::proof]
+#[kani::stub(core::result::unwrap_failed, stub_unwrap_failed)]
+#[kani::unwind(8)]
+fn c12_underflow_flip_fwd() {
+    underflow_case("flip", true);
+}
+
+// @harness c12_underflow_flip_inv prop=C12 tier=quick cap=900 stubs="M-BTREE, core::result::unwrap_failed (panic kept, message dropped)" bound="empty stack, action flip inverse: all operands NaN, count 0, no panic"
+#[kani::proof]
+#[kani::stub(core::result::unwrap_failed, stub_unwrap_failed)]
+#[kani::unwind(8)]
+fn c12_underflow_flip_inv() {
+    underflow_case("flip", false);
+}
+
+// @harness c12_underflow_roll_fwd prop=C12 tier=quick cap=900 stubs="M-BTREE, core::result::unwrap_failed (panic kept, message dropped)" bound="empty stack, action roll forward: all operands NaN, count 0, no panic"
+#[kani::proof]
+#[kani::stub(core::result::unwrap_failed, stub_unwrap_failed)]
+#[kani::unwind(8)]
+fn c12_underflow_roll_fwd() {
+    underflow_case("roll", true);
+}
+
+// @harness c12_underflow_roll_inv prop=C12 tier=quick cap=900 stubs="M-BTREE, core::result::unwrap_failed (panic kept, message dropped)" bound="empty stack, action roll inverse: all operands NaN, count 0, no panic"
+#[kani::proof]
+#[kani::stub(core::result::unwrap_failed, stub_unwrap_failed)]
+#[kani::unwind(8)]
+fn c12_underflow_roll_inv() {
+    underflow_case("roll", false);
+}
+
+// @harness c12_underflow_unroll_fwd prop=C12 tier=quick cap=900 stubs="M-BTREE, core::result::unwrap_failed (panic kept, message dropped)" bound="empty stack, action unroll forward: all operands NaN, count 0, no panic"
+#[kani::proof]
+#[kani::stub(core::result::unwrap_failed, stub_unwrap_failed)]
+#[kani::unwind(8)]
+fn c12_underflow_unroll_fwd() {
+    underflow_case("unroll", true);
+}
+
+// @harness c12_underflow_unroll_inv prop=C12 tier=quick cap=900 stubs="M-BTREE, core::result::unwrap_failed (panic kept, message dropped)" bound="empty stack, action unroll inverse: all operands NaN, count 0, no panic"
+#[kani::proof]
+#[kani::stub(core::result::unwrap_failed, stub_unwrap_failed)]
+#[kani::unwind(8)]
+fn c12_underflow_unroll_inv() {
+    underflow_case("unroll", false);
+}
